@@ -22,6 +22,9 @@ pub enum Q {
 }
 
 pub struct World {
+    /// aggressive discard policy (regexes dropped and rebuilt all the time) or the default one
+    /// (compiled regexes stay cached across tag changes)
+    pub aggressive: bool,
     pub rules: Vec<String>,
     pub queries: Vec<Q>,
     /// tag operation before each round: (op, tags)
@@ -88,7 +91,13 @@ pub fn world(seed: u64, size: usize) -> World {
         Q::Csp { url, src } => Request::new(url, src, "document").is_ok(),
         _ => true,
     });
-    let mut rounds = vec![("use".to_string(), vec![])];
+    // a fixed prelude in which tagged filters are freed and re-allocated several times (address
+    // reuse by the allocator), then random tag operations
+    let mut rounds: Vec<(String, Vec<String>)> = vec![];
+    let tag_seq: [&[&str]; 8] = [&[], &["alpha"], &[], &["beta"], &["alpha", "gamma"], &[], &["beta", "gamma"], &["alpha"]];
+    for ts in tag_seq {
+        rounds.push(("use".to_string(), ts.iter().map(|s| s.to_string()).collect()));
+    }
     for k in 0..(3 + size / 8) {
         let op = *r.pick(&[&"use", &"use", &"enable", &"disable"]);
         let mut ts: Vec<String> = TAGS.iter().filter(|_| r.pct(50)).map(|s| s.to_string()).collect();
@@ -97,14 +106,16 @@ pub fn world(seed: u64, size: usize) -> World {
         }
         rounds.push((op.to_string(), ts));
     }
-    World { rules, queries, rounds, optimize: seed % 2 == 0 }
+    World { aggressive: seed % 2 == 1, rules, queries, rounds, optimize: (seed / 2) % 2 == 0 }
 }
 
 pub fn build(w: &World) -> Engine {
     let mut e = Engine::from_rules_parametrised(&w.rules, Default::default(), false, w.optimize);
     e.use_resources(c01::std_resources());
     // aggressive discard policy: compiled regexes are dropped and rebuilt all the time
-    e.set_regex_discard_policy(RegexManagerDiscardPolicy { cleanup_interval: Duration::from_micros(1500), discard_unused_time: Duration::from_micros(700) });
+    if w.aggressive {
+        e.set_regex_discard_policy(RegexManagerDiscardPolicy { cleanup_interval: Duration::from_micros(1500), discard_unused_time: Duration::from_micros(700) });
+    }
     e
 }
 
